@@ -17,7 +17,6 @@ package simrt
 import (
 	"fmt"
 	"hash/fnv"
-	"math/rand"
 	"runtime"
 	"runtime/debug"
 	"sort"
@@ -34,6 +33,31 @@ const (
 	gNative
 	gDone
 )
+
+// prng is a tiny splitmix64 generator implemented here so that draws made
+// from sim goroutines are invisible to the race detector (math/rand's state is
+// instrumented library memory).
+type prng struct{ x uint64 }
+
+//go:norace
+func newPrng(seed int64) *prng { return &prng{uint64(seed)*0x9E3779B97F4A7C15 + 0x1234567} }
+
+//go:norace
+func (p *prng) Uint64() uint64 {
+	p.x += 0x9E3779B97F4A7C15
+	z := p.x
+	z = (z ^ (z >> 30)) * 0xBF58476D1CE4E5B9
+	z = (z ^ (z >> 27)) * 0x94D049BB133111EB
+	return z ^ (z >> 31)
+}
+
+//go:norace
+func (p *prng) Intn(n int) int {
+	if n <= 1 {
+		return 0
+	}
+	return int(p.Uint64() % uint64(n))
+}
 
 // Waiter describes what a parked goroutine is waiting for (nil = nothing,
 // it is simply runnable).
@@ -56,6 +80,10 @@ type G struct {
 	woke    bool
 	doneTok int32
 	tok     int32
+	// Parent is the ID of the goroutine that spawned this one (0: the root).
+	Parent int
+	// StartStep / EndStep are the scheduler step counts at spawn and at exit.
+	StartStep, EndStep int
 	// Local is private storage for harness code running on this goroutine.
 	Local any
 }
@@ -89,9 +117,9 @@ type Sched struct {
 	cur     *G
 	gs      []*G
 	wake    chan struct{}
-	rng     *rand.Rand // schedule choices
-	lib     *rand.Rand // library math/rand draws
-	aux     *rand.Rand // pool/map/select choices
+	rng     *prng // schedule choices
+	lib     *prng // library math/rand draws
+	aux     *prng // pool/map/select choices
 	tape    []int
 	tapePos int
 	Rec     []int // recorded choices
@@ -135,9 +163,9 @@ func New(cfg Config) *Sched {
 		cfg.Limit = time.Hour
 	}
 	s := &Sched{cfg: cfg, wake: make(chan struct{}, 1), tape: cfg.Tape, start: time.Now(), hash: 14695981039346656037, SiteSet: map[string]int{}}
-	s.rng = rand.New(rand.NewSource(cfg.Seed*7919 + 1))
-	s.lib = rand.New(rand.NewSource(cfg.Seed*104729 + 2))
-	s.aux = rand.New(rand.NewSource(cfg.Seed*1299709 + 3))
+	s.rng = newPrng(cfg.Seed*7919 + 1)
+	s.lib = newPrng(cfg.Seed*104729 + 2)
+	s.aux = newPrng(cfg.Seed*1299709 + 3)
 	s.strat = cfg.Strategy
 	if s.strat < 0 {
 		s.strat = s.rng.Intn(len(StrategyNames))
@@ -182,6 +210,10 @@ func (s *Sched) Hash() string { return fmt.Sprintf("%016x", s.hash) }
 func (s *Sched) newG(site string, app bool) *G {
 	g := &G{ID: len(s.gs) + 1, Site: site, App: app, release: make(chan struct{}), state: gParked, where: "start"}
 	g.prio = s.rng.Intn(1 << 20)
+	g.StartStep = s.Steps
+	if s.cur != nil {
+		g.Parent = s.cur.ID
+	}
 	s.gs = append(s.gs, g)
 	return g
 }
@@ -345,6 +377,7 @@ func (s *Sched) exit(g *G) {
 	if S == s && s.cur == g {
 		s.cur = nil
 	}
+	g.EndStep = s.Steps
 	RaceReleaseMerge(unsafe.Pointer(&g.doneTok))
 	RaceReleaseMerge(unsafe.Pointer(&g.tok))
 	atomic.StoreInt32(&g.state, gDone)
@@ -621,8 +654,10 @@ func (s *Sched) Kill() {
 	}
 }
 
-// LibRand is the PRNG behind the math/rand shim.
-func (s *Sched) LibRand() *rand.Rand { return s.lib }
+// LibUint64 draws from the PRNG behind the math/rand shim.
+//
+//go:norace
+func (s *Sched) LibUint64() uint64 { return s.lib.Uint64() }
 
 // Joined gives the caller a happens-before edge from the end of each finished
 // goroutine (what a WaitGroup.Wait would give); harness joins only.
@@ -644,3 +679,13 @@ func (s *Sched) AcquireAll() {
 		RaceAcquire(unsafe.Pointer(&g.tok))
 	}
 }
+
+// Gs returns all goroutines created so far (read-only use).
+//
+//go:norace
+func (s *Sched) Gs() []*G { return s.gs }
+
+// Step returns the current scheduler step count (a logical clock).
+//
+//go:norace
+func (s *Sched) Step() int { return s.Steps }
